@@ -2,6 +2,7 @@ import QuiverModel.Core.Packaging.Renaming
 import QuiverModel.Core.Packaging.Sem
 import QuiverModel.Lemmas.Packaging.Exec
 import QuiverModel.Lemmas.Packaging.ValueInstrs
+import QuiverModel.Lemmas.Packaging.Inject
 /-
 C10 — packaging steps preserve behaviour (property theorems).
 
@@ -349,15 +350,27 @@ theorem valueToInstrs_total_on_wf : ∀ (v : Val) (P : Prog), WfVal P v → (v2i
   exact ⟨fun v P hw => (key (sizeOf v)).1 v P (Nat.le_refl _) hw,
          fun vs P hw => (key (sizeOf vs)).2 vs P (Nat.le_refl _) hw⟩
 
-/-- Full statement for capture injection (`inject_function_captures`, the `quiv run` entry
-    extraction): the injected capture-free function `g`, called with `a`, behaves as the closure
-    `fn f caps` called with `a` — same final result, for every argument and every execution.
-    Proved below is the part that carries the content (`injectCaptures_prelude_partial`); the
-    remaining part is a simulation between a function body at offset 0 and the same body at offset
-    `prelude.length` (relative jumps; `TailCall(true)` re-runs the prelude), not done. -/
+/-- What the compiler guarantees about a function body and capture injection relies on (C07's
+    checker certifies the first for every emitted function): every jump lands inside the function
+    (`0 ≤ target ≤ length`), and the function never resets its locals below its `n` captures. -/
+structure BodyOK (F : Fn) (n : Nat) : Prop where
+  jumps : ∀ (pc : Nat) (off : Int), (F.instrs[pc]? = some (.jump off) ∨ F.instrs[pc]? = some (.jumpIf off)) →
+    0 ≤ (pc : Int) + off + 1 ∧ (pc : Int) + off + 1 ≤ F.instrs.length
+  resets : ∀ (pc m : Nat), F.instrs[pc]? = some (.reset m) → n ≤ m
+
+/-- Statement of behavioural equivalence for capture injection (`inject_function_captures`, the
+    `quiv run` / `quiv compile` entry extraction) **in full generality** — any captures, including
+    closures that capture themselves something: the injected capture-free function `g`, called with
+    `a`, ends like the closure `fn f caps` called with `a`. For captures without nested capturing
+    closures this is `injectCaptures_equiv` below (proved). In full generality the statement needs a
+    value relation (a nested capturing closure is itself replaced by an injected function, so results
+    are equal only up to that replacement, see `Rebuilt`) and is false as soon as such closures are
+    compared with `Equal` (two closures whose captures are shape-equal but built with different tuple
+    ids are `values_equal`, their injected functions are different indices) — it is kept as the
+    statement, not claimed. -/
 def InjectCapturesEquivStatement : Prop :=
-  ∀ (P P2 : Prog) (f g : Nat) (caps : List Val) (B : BuiltinSem) (a : Val) (fuel : Nat) (r : Res),
-    injectCaptures P f caps = some (P2, g) → WfVals P caps →
+  ∀ (P P2 : Prog) (f g : Nat) (caps : List Val) (F : Fn) (B : BuiltinSem) (a : Val) (fuel : Nat) (r : Res),
+    injectCaptures P f caps = some (P2, g) → WfVals P caps → P.fns[f]? = some F → BodyOK F caps.length →
     run P2 B fuel ⟨[a], caps, [⟨f, 0, caps.length, 0⟩], false⟩ = some r →
     (∀ v, r = .done v → ∃ fuel', run P2 B fuel' (St.start g a) = some (.done v)) ∧
     (∀ e, r = .err e → ∃ fuel', run P2 B fuel' (St.start g a) = some (.err e))
@@ -366,7 +379,7 @@ def InjectCapturesEquivStatement : Prop :=
     own (integers, binaries, tuples, builtins, capture-free functions — `Flat`): the injected function
     `g` consists of a prelude followed by exactly the body of `f`, and running the prelude in the frame
     a call of `g` creates (no captures, `pc = 0`) reaches the first instruction of the body with the
-    argument still on the stack and **the closure's captures, in order, as the frame's first locals** —
+    stack untouched (the argument is still on top) and **the closure's captures, in order, as the frame's first locals** —
     the configuration `Call` creates for the closure `fn f caps` itself. (Storing them in another order
     — e.g. reversed — falsifies this theorem.) -/
 theorem injectCaptures_prelude_partial {P P2 : Prog} {f g : Nat} {caps : List Val}
@@ -374,10 +387,10 @@ theorem injectCaptures_prelude_partial {P P2 : Prog} {f g : Nat} {caps : List Va
     P.Le P2 ∧ ∃ (F : Fn) (prelude : List Instr),
       P2.fns[f]? = some F ∧
       P2.fns[g]? = some { instrs := prelude ++ F.instrs, captures := 0, typeId := F.typeId } ∧
-      ∀ (Q : Prog), P2.Le Q → ∀ (B : BuiltinSem) (a : Val) (S L : List Val) (base : Nat) (rest : List Frame)
+      ∀ (Q : Prog), P2.Le Q → ∀ (B : BuiltinSem) (S L : List Val) (base : Nat) (rest : List Frame)
         (pers : Bool),
-        Steps Q B ⟨a :: S, L, ⟨g, base, 0, 0⟩ :: rest, pers⟩
-                  ⟨a :: S, L ++ caps, ⟨g, base, 0, prelude.length⟩ :: rest, pers⟩ := by
+        Steps Q B ⟨S, L, ⟨g, base, 0, 0⟩ :: rest, pers⟩
+                  ⟨S, L ++ caps, ⟨g, base, 0, prelude.length⟩ :: rest, pers⟩ := by
   unfold injectCaptures at h
   split at h
   · cases h
@@ -392,7 +405,7 @@ theorem injectCaptures_prelude_partial {P P2 : Prog} {f g : Nat} {caps : List Va
       rw [h] at hle2 hget
       simp only at hle2 hget
       refine ⟨hle1.trans hle2, F, prelude, hle2.fns _ _ hF, hget, ?_⟩
-      intro Q hQ B a S L base rest pers
+      intro Q hQ B S L base rest pers
       have hcode : CodeAt Q g 0 prelude := by
         intro k i hk
         refine ⟨_, hQ.fns _ _ hget, ?_⟩
@@ -402,8 +415,77 @@ theorem injectCaptures_prelude_partial {P P2 : Prog} {f g : Nat} {caps : List Va
           · rw [List.getElem?_eq_none h] at hk; cases hk
         simp only [Nat.zero_add]
         rw [List.getElem?_append_left hlt]; exact hk
-      have := hstores Q (hle2.trans hQ) B (a :: S) L g base 0 0 rest pers hcode
+      have := hstores Q (hle2.trans hQ) B S L g base 0 0 rest pers hcode
       simpa using this
+
+/-- **`injectCaptures_equiv`** — capture injection preserves behaviour, for captures without nested
+    capturing closures. In any program `Q` extending the injected one, with any builtin semantics, for
+    every argument `a` and every execution: if the call of the closure `fn f caps` with `a` (frame of
+    `f`, captures as the first locals) ends with a value / an error class / a panic, then the call of
+    the injected function `g` with `a` (`spawn_process(g, [], a)`, what `quiv run` executes) ends with
+    **the same** value / error class / panic (after possibly more steps: each `TailCall(true)` re-runs
+    the prelude); if it yields to the scheduler, so does the other, at the same instruction, with
+    identical stack and locals and frames that differ only in the bottom frame (`f@pc` vs
+    `g@pc+prelude.length`). -/
+theorem injectCaptures_equiv {P P2 : Prog} {f g : Nat} {caps : List Val} {F : Fn}
+    (h : injectCaptures P f caps = some (P2, g)) (hw : WfVals P caps) (hfl : FlatList caps)
+    (hF : P.fns[f]? = some F) (hbody : BodyOK F caps.length)
+    (hsize : ∀ G, P2.fns[g]? = some G → G.instrs.length < 2 ^ 64) :
+    ∀ (Q : Prog), P2.Le Q → ∀ (B : BuiltinSem) (a : Val) (pers : Bool) (fuel : Nat) (r : Res),
+      run Q B fuel ⟨[a], caps, [⟨f, 0, caps.length, 0⟩], pers⟩ = some r →
+      ∃ fuel' r', run Q B fuel' ⟨[a], [], [⟨g, 0, 0, 0⟩], pers⟩ = some r' ∧
+        (∀ v, r = .done v → r' = .done v) ∧ (∀ e, r = .err e → r' = .err e) ∧ (r = .panic → r' = .panic) ∧
+        (∀ t i, r = .yield t i → ∃ t', r' = .yield t' i ∧ t'.stack = t.stack ∧ t'.locals = t.locals) := by
+  obtain ⟨hle, F', prelude, hF2, hG, hpre⟩ := injectCaptures_prelude_partial h hw hfl
+  have hFF : F' = F := by
+    have := hle.fns _ _ hF
+    rw [hF2] at this; cases this; rfl
+  subst hFF
+  intro Q hQ B a pers fuel r hrun
+  have hlen : (prelude ++ F'.instrs).length < 2 ^ 64 := hsize _ hG
+  have hs : InjSetup Q B f g prelude.length caps.length caps F' prelude :=
+    { hF := hQ.fns _ _ hF2
+      hG := hQ.fns _ _ hG
+      hk := rfl
+      hn := rfl
+      prelude := fun S L base rest pers => hpre Q hQ B S L base rest pers
+      jumps := fun pc off hj => by
+        obtain ⟨h0, h1⟩ := hbody.jumps pc off hj
+        refine ⟨h0, ?_⟩
+        have : ((prelude ++ F'.instrs).length : Int) < 2 ^ 64 := by exact_mod_cast hlen
+        simp only [List.length_append, Int.natCast_add] at this
+        omega
+      resets := hbody.resets }
+  -- after the prelude the `g` run is in the state related to the closure's start state
+  have hstart := hpre Q hQ B [a] [] 0 [] pers
+  simp only [List.nil_append] at hstart
+  have hR : InjRel f g prelude.length caps.length 0 caps
+      ⟨[a], caps, [⟨f, 0, caps.length, 0⟩], pers⟩ ⟨[a], caps, [⟨g, 0, 0, prelude.length⟩], pers⟩ :=
+    ⟨rfl, rfl, rfl, Or.inr ⟨[], 0, rfl, (by simp), (by intro fr hfr; cases hfr), (by simp), (by simp)⟩⟩
+  obtain ⟨fuel1, r', hrun', hrel⟩ := inj_sim_run hs fuel hR hrun
+  obtain ⟨fuel2, hrun2⟩ := run_mono_steps hstart hrun'
+  refine ⟨fuel2, r', hrun2, ?_, ?_, ?_, ?_⟩
+  · intro v hv; subst hv; cases hrel; rfl
+  · intro e he; subst he; cases hrel; rfl
+  · intro hp; subst hp; cases hrel; rfl
+  · intro t i ht; subst ht
+    cases hrel with
+    | yield _ hRt => exact ⟨_, rfl, hRt.stack, hRt.locals⟩
+
+/-- The `done` / `err` part in the shape of `InjectCapturesEquivStatement` (for `Flat` captures). -/
+theorem injectCaptures_equiv_results {P P2 : Prog} {f g : Nat} {caps : List Val} {F : Fn}
+    (h : injectCaptures P f caps = some (P2, g)) (hw : WfVals P caps) (hfl : FlatList caps)
+    (hF : P.fns[f]? = some F) (hbody : BodyOK F caps.length)
+    (hsize : ∀ G, P2.fns[g]? = some G → G.instrs.length < 2 ^ 64)
+    (B : BuiltinSem) (a : Val) (fuel : Nat) (r : Res)
+    (hrun : run P2 B fuel ⟨[a], caps, [⟨f, 0, caps.length, 0⟩], false⟩ = some r) :
+    (∀ v, r = .done v → ∃ fuel', run P2 B fuel' (St.start g a) = some (.done v)) ∧
+    (∀ e, r = .err e → ∃ fuel', run P2 B fuel' (St.start g a) = some (.err e)) := by
+  obtain ⟨fuel', r', hrun', hd, he, _, _⟩ :=
+    injectCaptures_equiv h hw hfl hF hbody hsize P2 (Prog.Le.refl _) B a false fuel r hrun
+  constructor
+  · intro v hv; exact ⟨fuel', by rw [← hd v hv]; exact hrun'⟩
+  · intro e hev; exact ⟨fuel', by rw [← he e hev]; exact hrun'⟩
 
 /-- Non-vacuity: a closure capturing an integer and a tuple, injected into a small program. -/
 example : ∃ P2 g, injectCaptures exP 2 [.int 5, .tuple 2 [.int 6]] = some (P2, g) ∧
